@@ -1,5 +1,6 @@
 import Mathlib.Data.List.Forall2
 import PolyVerif.Lemmas.GffRoundTrip
+import PolyVerif.Model.Location
 /-
 C14 — GFF write-then-read preserves records and 1-based/0-based coordinates.
 
@@ -97,31 +98,45 @@ theorem coords_build (x : Gff) (h : wfBuild x = true) (f : Feature) (_hf : f ∈
   simp only [getSeq, expected, expectedFeature, hs, he]
   exact slice_eq_bases x.seq s e h1 h2
 
+/-- `Outcome` of the location model (C02) -/
+def toLoc {α : Type} : Outcome α → Location.Outcome α
+  | .ok a => .ok a
+  | .err => .err
+  | .panic => .panic
+
+/-- the `getSeq` used above is poly's `getFeatureSequence` as modelled for C02 (Model/Location.lean),
+on the locations gff.Parse creates: no sub-locations, no complement flag -/
+theorem getSeq_is_getFeatureSequence (parent : Str) (f : Feature) :
+    Location.getSeq { start := f.start, stop := f.stop } parent = toLoc (getSeq parent f) := by
+  simp only [Location.getSeq, getSeq, Location.slice, slice, Bool.false_eq_true, if_false]
+  split <;> rfl
+
 /-! ### C14, third clause: text laid out by the independent writer -/
 
 /-- **The parse of any text written by the independent GFF3 writer is what the document denotes**
 — arbitrary FASTA line widths (also blank lines inside the sequence), `##` directive lines, blank
-lines between features, with or without `###`, with or without the final newline.
-PARTIAL: layouts WITHOUT `#` comment lines (`ℓ.comments = []`).  The full statement — the same
-conclusion for every `ℓ` with `wfLayout ℓ` — is false of the code: `comment_witness`. -/
-theorem parse_layout_partial (d : GffDoc) (ℓ : Layout) (hd : wfDoc d = true) (hl : wfLayout ℓ = true)
-    (hc : ℓ.comments = []) : parse (layout d ℓ) = .ok (denote d) := by
+lines between features, `#` comment lines (skipped since fix fdf6b17), with or without `###`, with or
+without the final newline. -/
+theorem parse_layout (d : GffDoc) (ℓ : Layout) (hd : wfDoc d = true) (hl : wfLayout ℓ = true) :
+    parse (layout d ℓ) = .ok (denote d) := by
   simp only [wfDoc, Bool.and_eq_true, List.all_eq_true] at hd
   obtain ⟨⟨⟨⟨⟨⟨h1, h2⟩, h3⟩, h4⟩, h5⟩, h6⟩, h7⟩ := hd
   simp only [wfLayout, Bool.and_eq_true, List.all_eq_true] at hl
   have hdirs := hl.1
+  have hcoms := hl.2
   -- the lines, in the shape of `parseLines_doc`
   let vline := joinSep ' ' [sGffVersion, d.version]
   let rline := joinSep ' ' [sSeqRegion, d.region, itoa d.regionFirst, itoa d.regionLast]
-  let mid := ℓ.directives ++ featBlock d.feats ℓ.gaps ++ (if ℓ.closeMark then [sClose] else [])
+  let mid := ℓ.directives ++ ℓ.comments ++ featBlock d.feats ℓ.gaps ++ (if ℓ.closeMark then [sClose] else [])
   have hshape : layoutLines d ℓ = vline :: rline :: (mid ++ sFasta :: ('>' :: d.defline) :: chunks ℓ.widths d.seq) := by
-    simp [layoutLines, hc, vline, rline, mid, List.append_assoc]
+    simp [layoutLines, vline, rline, mid, List.append_assoc]
   have hmid : MidOk mid (d.feats.map denoteFeat) := by
     have hclose : MidOk (if ℓ.closeMark then [sClose] else []) [] := by
       split
       · exact MidOk.skip (by decide) (by decide)
       · exact MidOk.nil
-    have := MidOk.append (MidOk.append (midOk_directives ℓ.directives hdirs) (midOk_featBlock d.feats ℓ.gaps h5)) hclose
+    have := MidOk.append (MidOk.append (MidOk.append (midOk_directives ℓ.directives hdirs)
+      (midOk_comments ℓ.comments hcoms)) (midOk_featBlock d.feats ℓ.gaps h5)) hclose
     simpa [mid] using this
   have hvsplit : idx (split ' ' vline) 1 = .ok d.version := by
     simp only [vline, joinSep]
@@ -131,11 +146,11 @@ theorem parse_layout_partial (d : GffDoc) (ℓ : Layout) (hd : wfDoc d = true) (
     simp only [rline, joinSep]
     rw [split_cons_line _ (sSeqRegion_free _ (by simp)), split_cons_line _ (free_not_mem h2 (by simp)),
       split_cons_line _ (itoa_free_tabnl _ _ (by simp)), split_nosep (itoa_free_tabnl _ _ (by simp))]
-  have hvf : hasPrefix sHash2 vline = true ∧ vline ≠ sFasta := by
+  have hvf : hasPrefix sHash1 vline = true ∧ vline ≠ sFasta := by
     simp only [vline, joinSep]
     rw [sGffVersion_eq]
     exact header_line_facts _ _ _ (by decide)
-  have hrf : hasPrefix sHash2 rline = true ∧ rline ≠ sFasta := by
+  have hrf : hasPrefix sHash1 rline = true ∧ rline ≠ sFasta := by
     simp only [rline, joinSep]
     rw [sSeqRegion_eq]
     exact header_line_facts _ _ _ (by decide)
@@ -147,7 +162,7 @@ theorem parse_layout_partial (d : GffDoc) (ℓ : Layout) (hd : wfDoc d = true) (
     rw [hshape]
     intro l hl
     simp only [List.mem_cons, List.mem_append, mid] at hl
-    rcases hl with rfl | rfl | ((hl | hl) | hl) | rfl | rfl | hl
+    rcases hl with rfl | rfl | (((hl | hl) | hl) | hl) | rfl | rfl | hl
     · simp only [vline, joinSep, List.mem_append, List.mem_cons, not_or]
       exact ⟨sGffVersion_free _ (by simp), by decide, free_not_mem h1 (by simp)⟩
     · simp only [rline, joinSep, List.mem_append, List.mem_cons, not_or]
@@ -155,6 +170,9 @@ theorem parse_layout_partial (d : GffDoc) (ℓ : Layout) (hd : wfDoc d = true) (
         itoa_free_tabnl _ _ (by simp), by decide, itoa_free_tabnl _ _ (by simp)⟩
     · have := hdirs l hl
       simp only [wfDirective, Bool.and_eq_true] at this
+      exact free_not_mem this.2 (by simp)
+    · have := hcoms l hl
+      simp only [wfComment, Bool.and_eq_true] at this
       exact free_not_mem this.2 (by simp)
     · exact featBlock_noNl d.feats ℓ.gaps h5 l hl
     · split at hl
@@ -181,23 +199,6 @@ theorem parse_layout_partial (d : GffDoc) (ℓ : Layout) (hd : wfDoc d = true) (
   · rw [if_neg hfn, List.append_nil, split_joinSep hne hnonl, hshape,
       parseLines_doc _ _ _ _ _ _ _ _ _ _ _ hvsplit hrsplit hvf.1 hvf.2 hrf.1 hrf.2 hmid hchunk]
     simp [denote, chunks_flatten, atoi_itoa (inInt_spec h3), atoi_itoa (inInt_spec h4)]
-
-/-- the minimal document with one standard GFF3 comment line -/
-def witnessDoc : GffDoc :=
-  { version := ['3'], region := ['s'], regionFirst := 1, regionLast := 1, feats := [], defline := ['s'], seq := ['A'] }
-def witnessLayout : Layout := { comments := [['#', 'c']] }
-
-/-- **Known finding C14-hash-comment**, kernel-checked on the model: a well-formed document written
-with one `#` comment line makes `Parse` panic, so the unrestricted `parse_layout` is false. -/
-theorem comment_witness :
-    ¬ (∀ (d : GffDoc) (ℓ : Layout), wfDoc d = true → wfLayout ℓ = true → parse (layout d ℓ) = .ok (denote d)) := by
-  intro h
-  have h1 : wfDoc witnessDoc = true := by decide
-  have h2 : wfLayout witnessLayout = true := by decide
-  have h3 : parse (layout witnessDoc witnessLayout) = .panic := by decide
-  have := h witnessDoc witnessLayout h1 h2
-  rw [h3] at this
-  cases this
 
 /-- **Coordinate law on laid-out text**: a feature line with columns 4 and 5 = `first`, `last`
 (1-based, inclusive, inside the sequence; `first = last + 1` is the empty interval) denotes a
@@ -234,9 +235,10 @@ def sampleDoc : GffDoc :=
                 strand := ['+'], phase := ['.'], attrs := [("ID".toList, "e1".toList), ("Parent".toList, "m1".toList)] }],
     defline := "ctg123 test".toList, seq := "ACGTACGTA".toList }
 def sampleLayout : Layout :=
-  { directives := ["##species x".toList], gaps := [2], closeMark := false, widths := [4, 0, 3], finalNewline := false }
+  { directives := ["##species x".toList], comments := ["# a comment".toList, ['#']], gaps := [2], closeMark := false,
+    widths := [4, 0, 3], finalNewline := false }
 
-example : wfDoc sampleDoc = true ∧ wfLayout sampleLayout = true ∧ sampleLayout.comments = [] := by decide
+example : wfDoc sampleDoc = true ∧ wfLayout sampleLayout = true := by decide
 example : parse (layout sampleDoc sampleLayout) = .ok (denote sampleDoc) := by decide
 example : getSeq (denote sampleDoc).seq (denoteFeat (sampleDoc.feats.getD 0 ⟨[], [], [], 0, 0, [], [], [], []⟩)) = .ok "CGT".toList := by decide
 
